@@ -426,3 +426,23 @@ PLANS["C16"] = dict(
     assumptions=["input rings are simple and correctly wound (constructed, not checked by the code)"],
     trusted_base=["TLC 2026.09.04", "CommunityModules Json/IOUtils", "harness lattice projection"],
 )
+
+# ---- C04 -------------------------------------------------------------------------------------------
+
+
+def run_c04(ctx):
+    ctx.mc("WktMC", "WktMC.cfg", note="token grammar parses the printed tokens of every bounded shape back to the canonical value, also with white space inserted at one or two admissible gaps; typed acceptance table")
+    cases = ctx.tlcgen("WktGen", "WktGen.cfg", workers=4)
+    shards = ctx.gen("wkt", cases=cases)
+    ctx.validate("Wkt_Trace", shards)
+
+
+PLANS["C04"] = dict(
+    run=run_c04, signature=sig_default,
+    technique="TLA+ token-level printer and recursive-descent grammar of WKT; TLC checks Parse(Respell(Print(g))) = Canon(g) on a bounded shape set, emits re-spelling patterns, and validates the real text token for token and every parse result",
+    level_text="TLC checks on the 534-shape bounded set (nine kinds, empty members, nested collections) that the grammar parses the printed token sequence back to the canonical value, also with white space inserted at any one or two admissible gaps, and that the typed acceptance table is exact. For seeded geometries with finite coordinates over the full float64 range (exponent forms below 1e-4 and from 1e21, 17-digit mantissas, subnormals, -0; collections nested to depth 3 with empty members) the harness tokenises the text the real wkt.MarshalString produced (numbers -> strconv.ParseFloat -> bit id); TLC requires the tokens to equal the specified printing exactly (so shortest-representation printing is checked through id equality), wkt.Unmarshal to return the canonical value, and each of the seven typed parse functions to accept exactly its own kind and report incorrect-geometry otherwise. 819 TLC-generated re-spelling patterns (gap positions x keyword case class x kind of white space) are applied to real texts and must parse to the same value.",
+    level_note="That a decimal string denotes a given float64 is decided by strconv.ParseFloat + bit interning in the harness (TLC sees id equality). Polygons / multi-line strings containing a zero-vertex part print '()' which is not WKT and are not generated; NaN and infinities are outside the quantifier (finite coordinates). Trusted: TLC, Json module, strconv, the tokeniser.",
+    rule="one event = one geometry (text tokens, parse result, typed results) or one re-spelled text; non-trivial = non-nil geometry; distinct = distinct event text",
+    assumptions=["white space is never inserted between the two numbers of a coordinate"],
+    trusted_base=["TLC 2026.09.04", "CommunityModules Json/IOUtils", "strconv.ParseFloat", "harness tokeniser"],
+)
